@@ -50,13 +50,15 @@ txt = {
  "PV_tok": "abc", "PV_num": "3600", "PV_0": "0", "PV_big": "4294967296", "PV_q5": "0.5", "PV_q1": "1", "PV_q1000": "1.000", "PV_q05": ".05", "PV_q2": "2",
  "PV_quoted": "\"q v\"", "PV_qesc": "\"a\\\"b;c,d\"",
  "U_inner": "sip:a@b;tag=in;lr;expires=5;q=0.1", "WSFH": "\r\n\t", "WSSF": " \r\n ",
+ "D_qfold": "\"A\r\n B\"", "PV_qfold": "\"a\r\n\tb\"", "PV_q1dot": "1.", "PV_q0005": "0.005", "PV_q0999": "0.999",
+ "P_expire": "expire", "P_expiress": "expiress", "P_qq": "qq", "P_l": "l", "P_lrx": "lrx", "P_Expires": "Expires", "P_tAG": "tAG", "P_Lr": "Lr",
  "PV_max": "4294967295", "PV_huge": "99999999999999999999999", "PV_60": "60", "PV_q0000": "0.000", "PV_q025": "0.25", "U_comma": "sip:a,b@h;x=1,2", "WSH": "\t",
  # URI component values of the URI-pair generator (GenURI.tla, C15)
  "GU_sip": "sip", "GU_sips": "sips", "GU_e": "", "GU_al": "al", "GU_Al": "Al", "GU_pw": "pw", "GU_Pw": "Pw",
  "GU_hx": "h.x", "GU_Hx": "H.x", "GU_gy": "g.y", "GU_5060": "5060", "GU_5070": "5070",
  "GU_transport": "transport", "GU_user": "user", "GU_ttl": "ttl", "GU_method": "method", "GU_maddr": "maddr",
  "GU_lr": "lr", "GU_foo": "foo", "GU_bar": "bar", "GU_a": "a", "GU_A": "A", "GU_b": "b",
- "GU_s": "s", "GU_S": "S", "GU_t": "t",
+ "GU_s": "s", "GU_S": "S", "GU_t": "t", "GU_acb": "a,b",
  # parameter lists (GenParams.tla, C17): URI parameter names in several letter cases, near misses, URI header / plain names, values
  "UP_transport": "transport", "UP_Transport": "Transport", "UP_TRANSPORT": "TRANSPORT", "UP_tRaNsPoRt": "tRaNsPoRt",
  "UP_user": "user", "UP_USER": "USER", "UP_uSer": "uSer", "UP_method": "method", "UP_METHOD": "METHOD", "UP_Method": "Method",
@@ -72,10 +74,13 @@ txt = {
  "PV_marks": "1-_.!~*'()%[]/:+$z", "PQ_esc": "\"a\\\"b;c&d,e?f =\\\\\"", "PQ_empty": "\"\"",
  "MT_hdrs": "h=v&i=j", "MT_comma": " <sip:x@y>;p", "MT_tok": "tok", "MT_ab": "ab", "MT_cd": "cd", "MT_n": "n", "MT_qab": "\"ab\"",
  # C19 signature generator (MC_GenSig): method names, request tail, alternative values that keep the fingerprinted
- # strings (From tag 1928301774, first Via branch z9hG4bK776asdhds) and change everything else
+ # strings (From tag 1928301774, first Via branch z9hG4bK-776.asd_hds) and change everything else
  "M_invite": "INVITE", "M_register": "REGISTER", "M_options": "OPTIONS", "M_foo": "FOO", "T_ruri": " sip:bob@b.example SIP/2.0",
  "N_ua": "user-agent",
- "V_from1b": "\"Alice\" <sips:al@x.example:5061>;x=y;tag=1928301774", "V_via1b": "SIP/2.0/TCP 10.1.1.1:5061;branch=z9hG4bK776asdhds;rport",
+ "V_from1b": "\"Alice\" <sips:al@x.example:5061>;x=y;tag=1928301774",
+ "V_via4": "SIP/2.0/UDP pc33.a.example;branch=z9hG4bK-776.asd_hds", "V_via4b": "SIP/2.0/TCP 10.1.1.1:5061;branch=z9hG4bK-776.asd_hds;rport",
+ "V_via5": "SIP/2.0/UDP h, SIP/2.0/UDP g;branch=z9hG4bK-a.b_c", "V_via6": "SIP/2.0/UDP g;branch=z9hG4bK-a.b_c",
+ "V_via7": "SIP/2.0/UDP h;rport", "V_via8": "SIP/2.0/UDP h;rport, SIP/2.0/UDP g;branch=z9hG4bK-a.b_c",
  "V_maxfwd2": "0", "V_ua2": "x/2 (y)", "V_cseq5": "1 INVITE",
 }
 out = ["------------------------------- MODULE Texts -------------------------------",
